@@ -193,9 +193,50 @@ impl Monitor for C04 {
         if tier != Tier::Miri {
             s.push(stream("v2-ctl-s", tier.n(0, 100_000, 5_000_000)));
         }
+        if tier != Tier::Miri {
+            s.push(spec::engine::exhaustive("c04-huge", 18));
+        }
         spec::engine::sample_sweeps(s, tier, 4, 2)
     }
     fn run_case(&self, stream: &str, idx: u64, seed: u64, rec: &mut Recorder) {
+        if stream == "c04-huge" {
+            // an accepted header followed by 2 GiB .. 8 GiB of further (zero) bytes
+            if !spec::engine::huge_ok() {
+                return;
+            }
+            let mut rng = Rng::new(idx ^ seed.rotate_left(9));
+            let v1 = idx % 3 == 2;
+            let h: Vec<u8> = if v1 {
+                let mut l = spec::v1gen::valid_ascii_body(&mut rng).into_bytes();
+                l.extend_from_slice(b"\r\n");
+                l
+            } else {
+                let mut b = Vec::new();
+                let (vc, fp) = spec::v2::valid_ctl(idx);
+                spec::v2::valid_header_budget(&mut rng, &mut b, vc, fp, Some(40));
+                b
+            };
+            let size = spec::engine::HUGE_SIZES[(idx / 3) as usize % spec::engine::HUGE_SIZES.len()];
+            rec.case(hash_bytes(&h) ^ size as u64, true);
+            for entry in if v1 { vec![0usize, 3] } else { vec![2usize, 3] } {
+                let want = parse(entry, &h).unwrap();
+                if !want.is_ok() {
+                    continue;
+                }
+                rec.events(2);
+                match spec::engine::with_huge(&h, size, |x| parse(entry, x).unwrap()) {
+                    None => rec.class("skipped:huge-allocation-refused", || size.to_string()),
+                    Some(g) if g == want => rec.class("accepted|followed-by-multi-GiB", || format!("{} bytes", size)),
+                    Some(g) => rec.violation(
+                        &format!("trailer-changes-result:{}", ENTRY[entry]),
+                        enc_case(if v1 { "v1" } else { "v2" }, &h),
+                        "huge-trailer".into(),
+                        format!("trailer-changes-result via {}: header {:?} alone gives {}, followed by zero bytes up to a buffer of {} bytes it gives {}", ENTRY[entry], show(&h, 60), want.brief(), size, g.brief()),
+                    ),
+                }
+            }
+            return;
+        }
         // the random trailers are a function of the input alone, so that a replay is exact
         if stream.starts_with("v1-") {
             let x = v1_case(stream, idx, seed);
